@@ -50,6 +50,30 @@ class Ctx:
         self.uf_apps = {}          # name -> list of (arg expr, result expr) for transcendental axioms
         self.inputs = {}           # name -> z3 var (inputs to extract in witnesses)
         self.forked = 0
+        self.decided = {}          # AST id -> outcome of decisions already taken on this path
+        self._keep = []            # keeps decided ASTs alive so that ids are not recycled
+        self.div_lemmas = {}       # id of a symbolic/symbolic quotient term -> redundant linear lemma, added on first use
+        self._seen_ids = set()
+
+    def activate(self, e):
+        """add the pending quotient lemmas of every division term occurring in e"""
+        if not self.div_lemmas or not z3.is_expr(e):
+            return
+        stack = [e]
+        seen = self._seen_ids
+        while stack:
+            t = stack.pop()
+            i = t.get_id()
+            if i in seen:
+                continue
+            seen.add(i)
+            lem = self.div_lemmas.pop(i, None)
+            if lem is not None:
+                self.solver.add(lem)
+                self.model = None
+                stack.append(lem)
+            if z3.is_app(t):
+                stack.extend(t.children())
 
     # -- solver plumbing
     def add(self, *es):
@@ -85,9 +109,22 @@ class Ctx:
             return True
         if z3.is_false(e):
             return False
+        hit = self.decided.get(e.get_id())
+        if hit is not None:
+            return hit
         self.n_decisions += 1
         if self.n_decisions > self.max_decisions:
             raise Budget("decision budget")
+        self.activate(e)
+        r = self._decide(e)
+        self.decided[e.get_id()] = r
+        self._keep.append(e)
+        ne = z3.simplify(z3.Not(e))
+        self.decided[ne.get_id()] = not r
+        self._keep.append(ne)
+        return r
+
+    def _decide(self, e):
         if self.pos < len(self.prefix):
             taken = self.prefix[self.pos]
             self.pos += 1
@@ -430,7 +467,7 @@ class SymNum:
             return type(o)('nan')
         if isinstance(o, (list, tuple, str)):
             return NotImplemented
-        return self._mk(self.e * _z(o), o, mul=True)
+        return self._mk(_lin_mul(self.e, _z(o)), o, mul=True)
     __rmul__ = __mul__
 
     def _div(self, num, den, o):
@@ -452,7 +489,8 @@ class SymNum:
                          (q <= -1) == (num <= -den))
             neg = z3.And((q <= 1) == (num >= den), (q >= 1) == (num <= den), (q >= 0) == (num <= 0), (q <= 0) == (num >= 0),
                          (q <= -1) == (num >= -den))
-            c.add(z3.Implies(den > 0, pos), z3.Implies(den < 0, neg))
+            # lemmas are activated lazily, when q first occurs in a decision or an obligation (see Ctx.activate)
+            c.div_lemmas[q.get_id()] = z3.And(z3.Implies(den > 0, pos), z3.Implies(den < 0, neg))
         return self._mk(q, o, isint=False)
 
     def __truediv__(self, o):
@@ -609,6 +647,27 @@ class SymNum:
         return self
 
 
+def _const_ite(e):
+    """e == If(c, a, b) with numeral a, b -> (c, a, b)"""
+    if z3.is_app_of(e, z3.Z3_OP_ITE):
+        c, a, b = e.children()
+        if z3.is_rational_value(a) and z3.is_rational_value(b):
+            return c, a, b
+    return None
+
+
+def _lin_mul(x, y):
+    """x*y, keeping products with 0/1 indicators (and other two-valued terms) linear"""
+    if z3.is_rational_value(x) or z3.is_rational_value(y):
+        return x * y
+    for u, v in ((x, y), (y, x)):
+        ci = _const_ite(u)
+        if ci is not None:
+            c, a, b = ci
+            return z3.If(c, z3.simplify(a * v), z3.simplify(b * v))
+    return x * y
+
+
 def _grid_of(o):
     if isinstance(o, SymNum):
         return o.grid
@@ -673,13 +732,13 @@ def sym_round(x, n=0):
             return x          # value*sc is an integer: rounding to n decimals is the identity
         # round-half-even differs from floor(x+1/2) only on exact ties; ties are forked out
         y = x.e * sc
-        fl = z3.ToReal(z3.ToInt(y))
-        c = cur()
-        if c.decide(y - fl == z3.RealVal("1/2")):
-            k = c.concretize_int(z3.ToInt(y))
-            r = k if k % 2 == 0 else k + 1
-            return SymNum(z3.RealVal(r) / sc, isint=(sc == 1), py=x.py)
-        return SymNum(z3.ToReal(z3.ToInt(y + z3.RealVal("1/2"))) / sc, isint=(sc == 1), py=x.py)
+        k = z3.ToInt(y)
+        fl = z3.ToReal(k)
+        # round half to even: exact ties go to the even neighbour (no enumeration of k)
+        up = z3.ToReal(z3.ToInt(y + z3.RealVal("1/2")))
+        tie_val = z3.If(k % 2 == 0, fl, fl + 1)
+        r = z3.If(y - fl == z3.RealVal("1/2"), tie_val, up)
+        return SymNum(r / sc, py=x.py, grid=sc)
     return round(x, n) if n else round(x)
 
 
